@@ -1626,6 +1626,38 @@ pub struct CommitmentTransaction {
 	built: BuiltCommitmentTransaction,
 }
 
+#[cfg(feature = "verif_hooks")]
+impl CommitmentTransaction {
+	/// Verification hook (add-only, C06): a copy of this transaction in which single ATTRIBUTES are
+	/// overridden — commitment number, per-commitment point, feerate, the last non-dust HTLC dropped,
+	/// the first non-dust HTLC's amount — while the built transaction (txid, funding input) is kept.
+	/// Only for asking `verify_matching_commitment_transactions` about mismatching versions.
+	pub fn verif_with_attrs(
+		&self, commitment_number: Option<u64>, per_commitment_point: Option<PublicKey>,
+		feerate_per_kw: Option<u32>, drop_last_htlc: bool, first_htlc_amount_msat: Option<u64>,
+	) -> Self {
+		let mut copy = self.clone();
+		if let Some(number) = commitment_number {
+			copy.commitment_number = number;
+		}
+		if let Some(point) = per_commitment_point {
+			copy.keys.per_commitment_point = point;
+		}
+		if let Some(feerate) = feerate_per_kw {
+			copy.feerate_per_kw = feerate;
+		}
+		if drop_last_htlc {
+			copy.nondust_htlcs.pop();
+		}
+		if let Some(amount_msat) = first_htlc_amount_msat {
+			if let Some(htlc) = copy.nondust_htlcs.first_mut() {
+				htlc.amount_msat = amount_msat;
+			}
+		}
+		copy
+	}
+}
+
 impl Eq for CommitmentTransaction {}
 impl PartialEq for CommitmentTransaction {
 	#[rustfmt::skip]
